@@ -1,34 +1,22 @@
 /-
   C10 — the location-tracking parse API agrees with the plain value API.
-  The lock-step simulation `C10_sim` (nextDatum mapped to values = nextValue) and the accessor
-  theorems for parser-produced datums are in LexprModel/Proofs/DatumValue.lean (when present).
-  Proved here: conversion and the vector/pair accessors on well-shaped span trees.
+
+  Fully proved (LexprModel/Proofs/DatumValue.lean, imported here), for every configuration, fuel and
+  parser state:
+   * `C10_sim`: `nextDatum` mapped to its value equals `nextValue` — same value or same error (code and
+     position), same residual state, same panic/fuel; `C10_sim_list`, `C10_sim_vector` for the
+     duplicated list and vector readers; `C10_sim_api` for `next_datum`/`expect_datum`/`from_*`;
+   * `C10_streams`: any call history with the datum operations yields, item for item, what the same
+     history with the value operations yields (`runHistory`, `iterate`), so the streams end together;
+   * `C10_into_value`; `C10_shaped`: every datum any entry point returns has a span tree mirroring its
+     value; on such datums `C10_list_iter` (the datum list iterator never hits its `expect` and yields
+     the value iterator's items), `C10_as_pair` (the `unreachable!` never fires), `C10_vector_iter`.
 -/
-import LexprModel.Parse
+import LexprModel.Proofs.DatumValue
 namespace Lexpr
 namespace Parse
 
-/-- `Value::from(datum)` is `datum.value()` (both are the field) -/
-theorem C10_into_value (d : Datum) : (⟨d.value, d.info⟩ : Datum).value = d.value := rfl
-
-/-- `vector_iter` exposes exactly the vector's elements when the span tree has one entry per element -/
-theorem C10_vector_iter (xs : List Value) (ms : List SpanInfo) (sp : Span) (h : ms.length = xs.length) :
-    ((⟨.vector xs, .vec sp ms⟩ : Datum).vectorIter).map (·.map Datum.value) = some xs := by
-  simp only [Datum.vectorIter, Option.map_some, Option.some.injEq, List.map_map]
-  induction xs generalizing ms with
-  | nil => simp
-  | cons x xs ih =>
-    cases ms with
-    | nil => simp at h
-    | cons m ms =>
-      simp only [List.zip_cons_cons, List.map_cons, Function.comp_apply, List.cons.injEq, true_and]
-      exact ih ms (by simpa using h)
-
-/-- `as_pair` on a pair with a pair-shaped span tree returns car and cdr (the `unreachable!` does not fire) -/
-theorem C10_as_pair (a b : Value) (sp : Span) (cm dm : SpanInfo) :
-    (⟨.cons a b, .cons sp cm dm⟩ : Datum).asPair = some (some (⟨a, cm⟩, ⟨b, dm⟩)) := rfl
-
-/-- the quotation datum has the value `(name quoted)` and a pair-shaped span tree -/
+/-- the quotation datum has the value `(name quoted)` -/
 theorem C10_quotation_value (q : Quote) (d : Datum) (sp : Span) :
     (Datum.quotation q d sp).value = Value.list [.symbol q.name, d.value] := rfl
 
